@@ -21,9 +21,22 @@ def G(g):
 LAYOUT = 'c'        # memory layout of the 2-d arrays handed to the library: 'c' | 'strided' | 'fortran' | 'colslice'
 
 
+MASKFORM = 'array'  # how boolean qubit masks are handed over: 'array' (numpy bool) | 'pylist' (list of bool) | 'nplist' (list of numpy.bool_)
+
+
 def set_layout(name):
-    global LAYOUT
+    """memory layout of the operands; the form of mask arguments varies along with it (strided -> Python list, fortran -> list of numpy.bool_)"""
+    global LAYOUT, MASKFORM
     LAYOUT = name or 'c'
+    MASKFORM = {'strided': 'pylist', 'fortran': 'nplist'}.get(LAYOUT, 'array')
+
+
+def _maskform(a):
+    if MASKFORM == 'pylist':
+        return [bool(b) for b in a]
+    if MASKFORM == 'nplist':
+        return [np.bool_(b) for b in a]
+    return a
 
 
 def _lay(a):
@@ -86,7 +99,7 @@ def oST(s):
 
 
 def MASK(m):
-    return None if m is None else np.array(m, dtype=np.bool_)
+    return None if m is None else _maskform(np.array(m, dtype=np.bool_))
 
 
 def optmask(m):
@@ -95,8 +108,8 @@ def optmask(m):
     if m is None:
         return None
     if isinstance(m, Some):
-        return np.array(m.v, dtype=np.bool_)
-    return np.array(m, dtype=np.bool_)
+        return _maskform(np.array(m.v, dtype=np.bool_))
+    return _maskform(np.array(m, dtype=np.bool_))
 
 
 def guard(f):
@@ -371,7 +384,7 @@ def _(n, items):
 @op('get_int')
 def _(l, i): return oP(PL(l)[int(i)])
 @op('get_slice')
-def _(l, a, b): return oPL(PL(l)[slice(None if a is None else int(a), None if b is None else int(b))])
+def _(l, a, b, st=None): return oPL(PL(l)[slice(None if a is None else int(a), None if b is None else int(b), None if st is None else int(st))])
 def _mask_form(m, form):
     if form == 'pylist':
         return [bool(b) for b in m]
